@@ -471,6 +471,36 @@ fn check_c08(cfg: &ChainCfg, h: &crate::chain::History, out: &mut RunOutcome) {
     out.nontrivial = n_updates > 0;
 }
 
+/// Low-rank exactness: with every direction kept the adapted transformation whitens a Gaussian exactly.
+fn check_c08_lowrank(cfg: &ChainCfg, h: &crate::chain::History, out: &mut RunOutcome) {
+    let pname = cfg.preset.name();
+    if h.new_chain != CallResult::Ok || h.set_position != CallResult::Ok || h.failed_call.is_some() {
+        return;
+    }
+    let nt = cfg.preset.num_tune() as usize;
+    let mut worst = 0.0f64;
+    let mut n = 0u64;
+    for (i, d) in h.draws.iter().enumerate().skip(nt) {
+        let (Some(fd), Some(y)) = (d.f64("fisher_distance"), d.vec("transformed_position")) else { continue };
+        let y2: f64 = y.iter().map(|v| v * v).sum();
+        let rel = fd / (1.0 + y2);
+        worst = worst.max(rel);
+        n += 1;
+        if !(rel <= 1e-8) {
+            out.violate(
+                format!("C08/lowrank_gaussian_not_whitened/{pname}"),
+                format!("draw {i} (warmup {nt} draws, dimension {}): fisher_distance |y + grad_y|^2 = {fd:e} with |y|^2 = {y2:e}; y {:?}, grad_y {:?}", cfg.target.dim(), y, d.vec("transformed_gradient")),
+            );
+            return;
+        }
+    }
+    if std::env::var("VERIF_DEBUG").is_ok() {
+        eprintln!("lowrank_exact {pname} d={} nt={nt}: worst relative fisher distance {worst:e} over {n} draws", cfg.target.dim());
+    }
+    out.probe("lowrank_exact_draws_checked", n);
+    out.nontrivial = n > 0;
+}
+
 fn uses_grad_estimate(p: &Preset) -> bool {
     match p {
         Preset::DiagNuts(s) => s.adapt_options.mass_matrix_options.use_grad_based_estimate,
@@ -494,6 +524,7 @@ impl Scenario for AdaptScenario {
             "C07" => check_c07(&cfg, &h, &mut out),
             "C07cl" => check_c07_closed_loop(&cfg, &h, &mut out),
             "C08" => check_c08(&cfg, &h, &mut out),
+            "C08lr" => check_c08_lowrank(&cfg, &h, &mut out),
             other => crate::driver::harness_error(&format!("AdaptScenario: unknown property {other}")),
         }
         out
